@@ -721,7 +721,33 @@ def check_transposition(ctx: Ctx) -> None:
     ctx.floor("7.5-transposition", 10)
 
 
+def check_reduced_graph(ctx: Ctx) -> None:
+    """7.6: the Jacobians to compute are selected by traversing a graph in which each strongly coupled group is ONE node;
+    the couplings a group solves itself are not dependencies of that node, but a strong coupling solved by ANOTHER group
+    is an ordinary input of it: the names removed from a merged node's inputs are restricted to the group's own outputs
+    (F48: every strong coupling of the structure was removed, and a group fed by another group's coupling fell off the
+    traversal: its disciplines were not differentiated)."""
+    rel = "core/derivatives/mda_derivatives.py"
+    f = ctx.index.func(rel, "_replace_strongly_coupled")
+    con = cname(rel, None, "_replace_strongly_coupled")
+    ups = [c for c in walk_body(f) if isinstance(c, ast.Call) and last_attr(c) == "update_from_names" and "input_grammar" in norm_stmt(c.func, 200) and c.args]
+    ctx.need(len(ups) == 1, "_replace_strongly_coupled: the inputs given to the merged discipline were not found")
+    from gv.props.shared import unfolded as _unf
+
+    ok = True
+    found = []
+    for v in _unf(f, ups[0].args[0]) or [ups[0].args[0]]:
+        removed = [v.right] if isinstance(v, ast.BinOp) and isinstance(v.op, ast.Sub) else [c_.args[0] for c_ in ast.walk(v) if isinstance(c_, ast.Call) and last_attr(c_) in ("difference", "difference_update") and c_.args]
+        ok = ok and bool(removed)
+        for r in removed:
+            txt = " | ".join(norm_stmt(a_, 400) for a_ in (_unf(f, r) or [r]))
+            found.append(txt)
+            ok = ok and "output_grammar" in txt and ("group" in txt)
+    ctx.ob("7.6-reduced-graph", con, ok, f"the names removed from the inputs of a merged group must be the strong couplings the group computes itself (restricted to the outputs of its disciplines); found `{'; '.join(found)[:200]}`: removing every strong coupling cuts the path from another group to this one, and the total derivatives miss it", node=ups[0], stmt="only the group's own strong couplings are not inputs of the merged node")
+
+
 def run(ctx: Ctx) -> None:
+    check_reduced_graph(ctx)
     check_solve_routines(ctx)
     check_dimensions(ctx)
     check_transposition(ctx)
@@ -733,7 +759,7 @@ def run(ctx: Ctx) -> None:
 
 # ---------------------------------------------------------------------------
 WITNESSES = [
-    {"name": "seeded-C07-10", "file": "core/derivatives/jacobian_assembly.py", "old": "from gemseo.core.derivatives.mda_derivatives import traverse_add_diff_io_mda\nfrom gemseo.utils.compatibility.scipy import sparse_classes\nfrom gemseo.utils.constants import READ_ONLY_EMPTY_DICT\nfrom gemseo.utils.matplotlib_figure import save_show_figure\n\nif TYPE_CHECKING:\n    from collections.abc import Collection\n    from collections.abc import Iterable\n    from collections.abc import Iterator\n    from collections.abc import Mapping\n\n    from typing_extensions import TypeAlias\n\n    from gemseo.core.coupling_structure import CouplingStructure\n    from gemseo.core.discipline import Discipline\n    from gemseo.typing import RealArray\n    from gemseo.typing import RealOrComplexArray\n    from gemseo.typing import RealOrComplexArrayT\n    from gemseo.typing import StrKeyMapping\n\nLOGGER = logging.getLogger(__name__)\n\n\ndef none_factory() -> None:\n    \"\"\"Returns None...\n\n    To be used for defaultdict\n    \"\"\"\n\n\ndef default_dict_factory() -> dict[Any, None]:\n    \"\"\"Instantiates a defaultdict(None) object.\"\"\"\n    return defaultdict(none_factory)\n\n\n# TODO: API: extract to a specific module\nclass AssembledJacobianOperator(LinearOperator):  # type: ignore[misc] # because missing types\n    \"\"\"Representation of the assembled Jacobian as a SciPy ``LinearOperator``.\"\"\"\n\n    __functions: Iterable[str]\n    \"\"\"The names of functions to differentiate.\"\"\"\n\n    __variables: Iterable[str]\n    \"\"\"The names of variables with respect to which differentiate.\"\"\"\n\n    __is_residual: bool\n    \"\"\"Whether the functions are residuals.\"\"\"\n\n    __get_jacobian_generator: Callable[\n        [Iterable[str], Iterable[str], bool],\n        Iterator[tuple[RealOrComplexArray, JacobianAssembly.JacobianPosition]],\n    ]\n    \"\"\"The method to iterate over the relevant Jacobians, given the provided variables\n    and functions.\"\"\"\n\n    def __init__(\n        self,\n        functions: Iterable[str],\n        variables: Iterable[str],\n        n_functions: int,\n        n_variables: int,\n        get_jacobian_generator: Callable[\n            [Iterable[str], Iterable[str], bool],\n            Iterator[tuple[RealOrComplexArray, JacobianAssembly.JacobianPosition]],\n        ],\n        is_residual: bool = False,\n    ) -> None:\n        \"\"\"\n        Args:\n            functions: The functions to differentiate.\n            variables: The differentiation variables.\n            n_functions: The number of functions components.\n            n_variables: The number of variables components.\n            get_jacobian_generator: The method to iterate over the Jacobians associated\n                with the provided functions and variables.\n            is_residual: Whether the functions are residuals.\n        \"\"\"  # noqa: D205, D212, D415\n        super().__init__(shape=(n_functions, n_variables), dtype=float)\n\n        self.__functions = functions\n        self.__variables = variables\n        self.__is_residual = is_residual\n        self.__get_jacobian_generator = get_jacobian_generator\n\n    def _matvec(self, x: RealOrComplexArrayT) -> RealOrComplexArrayT:\n        \"\"\"The matrix-vector product involving the Jacobian \u2202f/\u2202v.\n\n        Args:\n            x: The vector to apply \u2202f/\u2202v to.\n\n        Returns:\n            The resulting vector \u2202f/\u2202v x.\n        \"\"\"\n        # Initialize the result with appropriate dimension\n        result = zeros(self.shape[0], dtype=x.dtype)\n\n        jacobian_generator = self.__get_jacobian_generator(\n            self.__functions, self.__variables, self.__is_residual\n        )\n\n        for jacobian, position in jacobian_generator:\n            result[position.row_slice] += jacobian.dot(x[position.column_slice])\n\n        return result\n\n    def _rmatvec(self, x: RealOrComplexArrayT) -> RealOrComplexArrayT:\n        \"\"\"The matrix-vector product involving the transposed Jacobian \u2202f/\u2202v.\n\n        Args:\n            x: The vector to apply the transpose of \u2202f/\u2202v to.\n\n        Returns:\n            The resulting vector (\u2202f/\u2202v)^T x.\n        \"\"\"\n        # Initialize the result with appropriate dimension\n        result = zeros(self.shape[1], dtype=x.dtype)\n\n        jacobian_generator = self.__get_jacobian_generator(\n            self.__functions, self.__variables, self.__is_residual\n        )\n\n        for jacobian, position in jacobian_generator:\n            result[position.column_slice] += jacobian.T.dot(x[position.row_slice])\n\n        return result\n\n\nclass JacobianAssembly:\n    \"\"\"Assembly of Jacobians.\n\n    Typically, assemble discipline's Jacobians into a system Jacobian.\n    \"\"\"\n\n    coupling_structure: CouplingStructure\n    \"\"\"The considered coupling structure.\"\"\"\n\n    sizes: dict[str, int]\n    \"\"\"The number of elements of a given str.\"\"\"\n\n    disciplines: dict[str, Discipline]\n    \"\"\"The disciplines, stored using their name.\"\"\"\n\n    __last_diff_inouts: tuple[set[str], set[str]]\n    \"\"\"The last diff in-outs stored.\"\"\"\n\n    __minimal_couplings: set[str]\n    \"\"\"The minimal couplings.\"\"\"\n\n    coupled_system: CoupledSystem\n    \"\"\"The coupled derivative system of residuals.\"\"\"\n\n    __linear_solver_factory: LinearSolverLibraryFactory\n    \"\"\"The linear solver factory.\"\"\"\n\n    DerivationMode: TypeAlias = derivation_modes.DerivationMode\n\n    class JacobianType(StrEnum):\n        \"\"\"The available types for the Jacobian matrix.\"\"\"\n\n        LINEAR_OPERATOR = \"linear_operator\"\n        \"\"\"Jacobian as a SciPy ``LinearOperator`` implementing the appropriate method to\n        perform matrix-vector products.\"\"\"\n\n        MATRIX = \"matrix\"\n        \"\"\"Jacobian matrix in Compressed Sparse Row (CSR) format.\"\"\"\n\n    class JacobianPosition(NamedTuple):\n        \"\"\"The position of the discipline's Jacobians within the assembled Jacobian.\"\"\"\n\n        row_slice: slice\n        \"\"\"The row slice indicating where to position the disciplinary Jacobian within\n        the assembled Jacobian when defined as an array.\"\"\"\n\n        column_slice: slice\n        \"\"\"The column slice indicating where to position the disciplinary Jacobian\n        within the assembled Jacobian when defined as an array.\"\"\"\n\n        row_index: int\n        \"\"\"The row index of the disciplinary Jacobian within the assembled Jacobian when\n        defined blockwise.\"\"\"\n\n        column_index: int\n        \"\"\"The column index of the disciplinary Jacobian within the assembled Jacobian\n        when defined blockwise.\"\"\"\n\n    def __init__(self, coupling_structure: CouplingStructure) -> None:\n        \"\"\"\n        Args:\n            coupling_structure: The CouplingStructure associated disciplines that\n                form the coupled system.\n        \"\"\"  # noqa: D205, D212, D415\n        self.coupling_structure = coupling_structure\n        self.sizes = {}\n        self.disciplines = {}\n        self.__last_diff_inouts = (set(), set())\n        self.__minimal_couplings = set()\n        self.coupled_system = CoupledSystem()\n        self.__linear_solver_factory = LinearSolverLibraryFactory(use_cache=True)\n\n    def _check_inputs(\n        self,\n        functions: Iterable[str],\n        variables: Iterable[str],\n        couplings: Iterable[str],\n        matrix_type: JacobianType,\n        use_lu_fact: bool,\n    ) -> None:\n        \"\"\"Check the inputs before differentiation.\n\n        Args:\n            functions: The functions to differentiate.\n            variables: The differentiation variables.\n            couplings: The coupling variables.\n            matrix_type: The type of matrix for linearization.\n            use_lu_fact: Whether to use the LU factorization once for all second\n                members.\n\n        Raises:\n            ValueError: When the inputs are inconsistent.\n        \"\"\"\n        unknown_dvars = set(variables)\n        unknown_outs = set(functions)\n\n        for discipline in self.coupling_structure.disciplines:\n            inputs = set(discipline.io.input_grammar)\n            outputs = set(discipline.io.output_grammar)\n            unknown_outs -= outputs\n            unknown_dvars -= inputs\n\n        if unknown_dvars:\n            possible_inputs = [\n                list(disc.io.input_grammar)\n                for disc in self.coupling_structure.disciplines\n            ]\n            msg = (\n                \"Some of the specified variables are not \"\n                \"inputs of the disciplines: \"\n                f\"{unknown_dvars}\"\n                \" possible inputs are: \"\n                f\"{possible_inputs}\"\n            )\n            raise ValueError(msg)\n\n        if unknown_outs:\n            raise ValueError(\n                \"Some outputs are not computed by the disciplines:\"\n                + str(unknown_outs)\n                + \" available outputs are: \"\n                + str([\n                    list(disc.io.output_grammar)\n                    for disc in self.coupling_structure.disciplines\n                ])\n            )\n\n        for coupling in set(couplings) & set(variables):\n            raise ValueError(\n                \"Variable \"\n                + str(coupling)\n                + \" is both a coupling and a design variable\"\n            )\n\n        matrix_type = self.JacobianType(matrix_type)\n\n        if use_lu_fact and matrix_type == self.JacobianType.LINEAR_OPERATOR:\n            msg = (\n                \"Unsupported LU factorization for \"\n                \"LinearOperators! Please use Sparse matrices\"\n                \" instead\"\n            )\n            raise ValueError(msg)\n\n    def compute_sizes(\n        self,\n        functions: Iterable[str],\n        variables: Iterable[str],\n        couplings: Iterable[str],\n        residual_variables: Mapping[str, str] = READ_ONLY_EMPTY_DICT,\n    ) -> None:\n        \"\"\"Compute the number of scalar functions, variables and couplings.\n\n        Args:\n            functions: The functions to differentiate.\n            variables: The differentiation variables.\n            couplings: The coupling variables.\n            residual_variables: The mapping of residuals of disciplines to their\n                respective state variables.\n\n        Raises:\n            ValueError: When the size of some variables could not be determined.\n        \"\"\"\n        # search for functions/variables/couplings in the Jacobians of the disciplines\n        if residual_variables:\n            outputs = itertools.chain(\n                functions,\n                couplings,\n                residual_variables.keys(),\n                residual_variables.values(),\n            )\n        else:\n            outputs = itertools.chain(functions, couplings)\n\n        # functions and coupling and states\n        for output in outputs:\n            discipline = self.coupling_structure.find_discipline(output)\n            self.disciplines[output] = discipline\n            # get an arbitrary Jacobian and compute the number of rows\n            self.sizes[output] = (\n                discipline.io.output_grammar.data_converter.get_value_size(\n                    output, discipline.io.data[output]\n                )\n            )\n\n        # variables\n        for variable in variables:\n            for discipline in self.coupling_structure.disciplines:\n                if variable not in self.sizes:\n                    for jacobian in discipline.jac.values():\n                        jacobian_wrt_variable = jacobian.get(variable, None)\n                        if jacobian_wrt_variable is not None:\n                            self.sizes[variable] = jacobian_wrt_variable.shape[1]\n                            self.disciplines[variable] = discipline\n                            break\n\n            if variable not in self.sizes:\n                msg = f\"Failed to determine the size of input variable {variable}\"\n                raise ValueError(msg)\n\n    @classmethod\n    def _get_derivation_mode(\n        cls,\n        mode: DerivationMode,\n        n_variables: int,\n        n_functions: int,\n    ) -> DerivationMode:\n        \"\"\"Get the differentiation mode.\n\n        Args:\n            mode: The differentiation mode.\n            n_variables: The number of variables.\n            n_functions: The number of functions.\n\n        Returns:\n            The differentiation mode.\n        \"\"\"\n        if mode != cls.DerivationMode.AUTO:\n            return mode\n        if n_variables <= n_functions:\n            return cls.DerivationMode.DIRECT\n        return cls.DerivationMode.ADJOINT\n\n    def compute_dimension(self, names: Iterable[str]) -> int:\n        \"\"\"Compute the total number of functions/variables/couplings of the full system.\n\n        Args:\n            names: The names of the inputs or the outputs.\n\n        Returns:\n            The dimension if the system.\n        \"\"\"\n        return sum(self.sizes[name] for name in names)\n\n    def _get_jacobian_generator(\n        self,\n        functions: Iterable[str],\n        variables: Iterable[str],\n        is_residual: bool = False,\n    ) -> Iterator[\n        tuple[RealOrComplexArray | csr_matrix | JacobianOperator, JacobianPosition]\n    ]:\n        \"\"\"Iterate over Jacobian matrices.\n\n        Provide a generator to iterate over the Jacobians associated with each provided\n        pair (function, variable). The generator yields the Jacobian along with its\n        relative position in the to be assembled Jacobian.\n\n        Args:\n            functions: The functions to differentiate.\n            variables: The differentiation variables.\n            is_residual: Whether the functions are residuals.\n\n        Yields:\n            A tuple of the form (Jacobian, Position).\n        \"\"\"\n        row = 0\n        # Iterate over outputs\n        for row_index, function in enumerate(functions):\n            column = 0\n            function_jacobian = self.disciplines[function].jac[function]\n            # Iterate over inputs\n            for column_index, variable in enumerate(variables):\n                jacobian = function_jacobian.get(variable, None)\n                variable_size = self.sizes[variable]\n\n                # If residual of the form Yi-Yi, then add -I to the Jacobian\n                if is_residual and function == variable:\n                    if jacobian is not None:\n                        # Make a copy to avoid in-place modifications\n                        jacobian_copy = jacobian.copy()\n\n                        if isinstance(jacobian_copy, ndarray):\n                            fill_diagonal(jacobian_copy, jacobian.diagonal() - 1)\n\n                        elif isinstance(jacobian_copy, sparse_classes):\n                            jacobian_copy.setdiag(jacobian.diagonal() - 1)\n", "new": "from gemseo.core.derivatives.mda_derivatives import traverse_add_diff_io_mda\nfrom gemseo.utils.constants import READ_ONLY_EMPTY_DICT\nfrom gemseo.utils.matplotlib_figure import save_show_figure\n\nif TYPE_CHECKING:\n    from collections.abc import Collection\n    from collections.abc import Iterable\n    from collections.abc import Iterator\n    from collections.abc import Mapping\n\n    from typing_extensions import TypeAlias\n\n    from gemseo.core.coupling_structure import CouplingStructure\n    from gemseo.core.discipline import Discipline\n    from gemseo.typing import RealArray\n    from gemseo.typing import RealOrComplexArray\n    from gemseo.typing import RealOrComplexArrayT\n    from gemseo.typing import StrKeyMapping\n\nLOGGER = logging.getLogger(__name__)\n\n\ndef none_factory() -> None:\n    \"\"\"Returns None...\n\n    To be used for defaultdict\n    \"\"\"\n\n\ndef default_dict_factory() -> dict[Any, None]:\n    \"\"\"Instantiates a defaultdict(None) object.\"\"\"\n    return defaultdict(none_factory)\n\n\n# TODO: API: extract to a specific module\nclass AssembledJacobianOperator(LinearOperator):  # type: ignore[misc] # because missing types\n    \"\"\"Representation of the assembled Jacobian as a SciPy ``LinearOperator``.\"\"\"\n\n    __functions: Iterable[str]\n    \"\"\"The names of functions to differentiate.\"\"\"\n\n    __variables: Iterable[str]\n    \"\"\"The names of variables with respect to which differentiate.\"\"\"\n\n    __is_residual: bool\n    \"\"\"Whether the functions are residuals.\"\"\"\n\n    __get_jacobian_generator: Callable[\n        [Iterable[str], Iterable[str], bool],\n        Iterator[tuple[RealOrComplexArray, JacobianAssembly.JacobianPosition]],\n    ]\n    \"\"\"The method to iterate over the relevant Jacobians, given the provided variables\n    and functions.\"\"\"\n\n    def __init__(\n        self,\n        functions: Iterable[str],\n        variables: Iterable[str],\n        n_functions: int,\n        n_variables: int,\n        get_jacobian_generator: Callable[\n            [Iterable[str], Iterable[str], bool],\n            Iterator[tuple[RealOrComplexArray, JacobianAssembly.JacobianPosition]],\n        ],\n        is_residual: bool = False,\n    ) -> None:\n        \"\"\"\n        Args:\n            functions: The functions to differentiate.\n            variables: The differentiation variables.\n            n_functions: The number of functions components.\n            n_variables: The number of variables components.\n            get_jacobian_generator: The method to iterate over the Jacobians associated\n                with the provided functions and variables.\n            is_residual: Whether the functions are residuals.\n        \"\"\"  # noqa: D205, D212, D415\n        super().__init__(shape=(n_functions, n_variables), dtype=float)\n\n        self.__functions = functions\n        self.__variables = variables\n        self.__is_residual = is_residual\n        self.__get_jacobian_generator = get_jacobian_generator\n\n    def _matvec(self, x: RealOrComplexArrayT) -> RealOrComplexArrayT:\n        \"\"\"The matrix-vector product involving the Jacobian \u2202f/\u2202v.\n\n        Args:\n            x: The vector to apply \u2202f/\u2202v to.\n\n        Returns:\n            The resulting vector \u2202f/\u2202v x.\n        \"\"\"\n        # Initialize the result with appropriate dimension\n        result = zeros(self.shape[0], dtype=x.dtype)\n\n        jacobian_generator = self.__get_jacobian_generator(\n            self.__functions, self.__variables, self.__is_residual\n        )\n\n        for jacobian, position in jacobian_generator:\n            result[position.row_slice] += jacobian.dot(x[position.column_slice])\n\n        return result\n\n    def _rmatvec(self, x: RealOrComplexArrayT) -> RealOrComplexArrayT:\n        \"\"\"The matrix-vector product involving the transposed Jacobian \u2202f/\u2202v.\n\n        Args:\n            x: The vector to apply the transpose of \u2202f/\u2202v to.\n\n        Returns:\n            The resulting vector (\u2202f/\u2202v)^T x.\n        \"\"\"\n        # Initialize the result with appropriate dimension\n        result = zeros(self.shape[1], dtype=x.dtype)\n\n        jacobian_generator = self.__get_jacobian_generator(\n            self.__functions, self.__variables, self.__is_residual\n        )\n\n        for jacobian, position in jacobian_generator:\n            result[position.column_slice] += jacobian.T.dot(x[position.row_slice])\n\n        return result\n\n\nclass JacobianAssembly:\n    \"\"\"Assembly of Jacobians.\n\n    Typically, assemble discipline's Jacobians into a system Jacobian.\n    \"\"\"\n\n    coupling_structure: CouplingStructure\n    \"\"\"The considered coupling structure.\"\"\"\n\n    sizes: dict[str, int]\n    \"\"\"The number of elements of a given str.\"\"\"\n\n    disciplines: dict[str, Discipline]\n    \"\"\"The disciplines, stored using their name.\"\"\"\n\n    __last_diff_inouts: tuple[set[str], set[str]]\n    \"\"\"The last diff in-outs stored.\"\"\"\n\n    __minimal_couplings: set[str]\n    \"\"\"The minimal couplings.\"\"\"\n\n    coupled_system: CoupledSystem\n    \"\"\"The coupled derivative system of residuals.\"\"\"\n\n    __linear_solver_factory: LinearSolverLibraryFactory\n    \"\"\"The linear solver factory.\"\"\"\n\n    DerivationMode: TypeAlias = derivation_modes.DerivationMode\n\n    class JacobianType(StrEnum):\n        \"\"\"The available types for the Jacobian matrix.\"\"\"\n\n        LINEAR_OPERATOR = \"linear_operator\"\n        \"\"\"Jacobian as a SciPy ``LinearOperator`` implementing the appropriate method to\n        perform matrix-vector products.\"\"\"\n\n        MATRIX = \"matrix\"\n        \"\"\"Jacobian matrix in Compressed Sparse Row (CSR) format.\"\"\"\n\n    class JacobianPosition(NamedTuple):\n        \"\"\"The position of the discipline's Jacobians within the assembled Jacobian.\"\"\"\n\n        row_slice: slice\n        \"\"\"The row slice indicating where to position the disciplinary Jacobian within\n        the assembled Jacobian when defined as an array.\"\"\"\n\n        column_slice: slice\n        \"\"\"The column slice indicating where to position the disciplinary Jacobian\n        within the assembled Jacobian when defined as an array.\"\"\"\n\n        row_index: int\n        \"\"\"The row index of the disciplinary Jacobian within the assembled Jacobian when\n        defined blockwise.\"\"\"\n\n        column_index: int\n        \"\"\"The column index of the disciplinary Jacobian within the assembled Jacobian\n        when defined blockwise.\"\"\"\n\n    def __init__(self, coupling_structure: CouplingStructure) -> None:\n        \"\"\"\n        Args:\n            coupling_structure: The CouplingStructure associated disciplines that\n                form the coupled system.\n        \"\"\"  # noqa: D205, D212, D415\n        self.coupling_structure = coupling_structure\n        self.sizes = {}\n        self.disciplines = {}\n        self.__last_diff_inouts = (set(), set())\n        self.__minimal_couplings = set()\n        self.coupled_system = CoupledSystem()\n        self.__linear_solver_factory = LinearSolverLibraryFactory(use_cache=True)\n\n    def _check_inputs(\n        self,\n        functions: Iterable[str],\n        variables: Iterable[str],\n        couplings: Iterable[str],\n        matrix_type: JacobianType,\n        use_lu_fact: bool,\n    ) -> None:\n        \"\"\"Check the inputs before differentiation.\n\n        Args:\n            functions: The functions to differentiate.\n            variables: The differentiation variables.\n            couplings: The coupling variables.\n            matrix_type: The type of matrix for linearization.\n            use_lu_fact: Whether to use the LU factorization once for all second\n                members.\n\n        Raises:\n            ValueError: When the inputs are inconsistent.\n        \"\"\"\n        unknown_dvars = set(variables)\n        unknown_outs = set(functions)\n\n        for discipline in self.coupling_structure.disciplines:\n            inputs = set(discipline.io.input_grammar)\n            outputs = set(discipline.io.output_grammar)\n            unknown_outs -= outputs\n            unknown_dvars -= inputs\n\n        if unknown_dvars:\n            possible_inputs = [\n                list(disc.io.input_grammar)\n                for disc in self.coupling_structure.disciplines\n            ]\n            msg = (\n                \"Some of the specified variables are not \"\n                \"inputs of the disciplines: \"\n                f\"{unknown_dvars}\"\n                \" possible inputs are: \"\n                f\"{possible_inputs}\"\n            )\n            raise ValueError(msg)\n\n        if unknown_outs:\n            raise ValueError(\n                \"Some outputs are not computed by the disciplines:\"\n                + str(unknown_outs)\n                + \" available outputs are: \"\n                + str([\n                    list(disc.io.output_grammar)\n                    for disc in self.coupling_structure.disciplines\n                ])\n            )\n\n        for coupling in set(couplings) & set(variables):\n            raise ValueError(\n                \"Variable \"\n                + str(coupling)\n                + \" is both a coupling and a design variable\"\n            )\n\n        matrix_type = self.JacobianType(matrix_type)\n\n        if use_lu_fact and matrix_type == self.JacobianType.LINEAR_OPERATOR:\n            msg = (\n                \"Unsupported LU factorization for \"\n                \"LinearOperators! Please use Sparse matrices\"\n                \" instead\"\n            )\n            raise ValueError(msg)\n\n    def compute_sizes(\n        self,\n        functions: Iterable[str],\n        variables: Iterable[str],\n        couplings: Iterable[str],\n        residual_variables: Mapping[str, str] = READ_ONLY_EMPTY_DICT,\n    ) -> None:\n        \"\"\"Compute the number of scalar functions, variables and couplings.\n\n        Args:\n            functions: The functions to differentiate.\n            variables: The differentiation variables.\n            couplings: The coupling variables.\n            residual_variables: The mapping of residuals of disciplines to their\n                respective state variables.\n\n        Raises:\n            ValueError: When the size of some variables could not be determined.\n        \"\"\"\n        # search for functions/variables/couplings in the Jacobians of the disciplines\n        if residual_variables:\n            outputs = itertools.chain(\n                functions,\n                couplings,\n                residual_variables.keys(),\n                residual_variables.values(),\n            )\n        else:\n            outputs = itertools.chain(functions, couplings)\n\n        # functions and coupling and states\n        for output in outputs:\n            discipline = self.coupling_structure.find_discipline(output)\n            self.disciplines[output] = discipline\n            # get an arbitrary Jacobian and compute the number of rows\n            self.sizes[output] = (\n                discipline.io.output_grammar.data_converter.get_value_size(\n                    output, discipline.io.data[output]\n                )\n            )\n\n        # variables\n        for variable in variables:\n            for discipline in self.coupling_structure.disciplines:\n                if variable not in self.sizes:\n                    for jacobian in discipline.jac.values():\n                        jacobian_wrt_variable = jacobian.get(variable, None)\n                        if jacobian_wrt_variable is not None:\n                            self.sizes[variable] = jacobian_wrt_variable.shape[1]\n                            self.disciplines[variable] = discipline\n                            break\n\n            if variable not in self.sizes:\n                msg = f\"Failed to determine the size of input variable {variable}\"\n                raise ValueError(msg)\n\n    @classmethod\n    def _get_derivation_mode(\n        cls,\n        mode: DerivationMode,\n        n_variables: int,\n        n_functions: int,\n    ) -> DerivationMode:\n        \"\"\"Get the differentiation mode.\n\n        Args:\n            mode: The differentiation mode.\n            n_variables: The number of variables.\n            n_functions: The number of functions.\n\n        Returns:\n            The differentiation mode.\n        \"\"\"\n        if mode != cls.DerivationMode.AUTO:\n            return mode\n        if n_variables <= n_functions:\n            return cls.DerivationMode.DIRECT\n        return cls.DerivationMode.ADJOINT\n\n    def compute_dimension(self, names: Iterable[str]) -> int:\n        \"\"\"Compute the total number of functions/variables/couplings of the full system.\n\n        Args:\n            names: The names of the inputs or the outputs.\n\n        Returns:\n            The dimension if the system.\n        \"\"\"\n        return sum(self.sizes[name] for name in names)\n\n    def _get_jacobian_generator(\n        self,\n        functions: Iterable[str],\n        variables: Iterable[str],\n        is_residual: bool = False,\n    ) -> Iterator[\n        tuple[RealOrComplexArray | csr_matrix | JacobianOperator, JacobianPosition]\n    ]:\n        \"\"\"Iterate over Jacobian matrices.\n\n        Provide a generator to iterate over the Jacobians associated with each provided\n        pair (function, variable). The generator yields the Jacobian along with its\n        relative position in the to be assembled Jacobian.\n\n        Args:\n            functions: The functions to differentiate.\n            variables: The differentiation variables.\n            is_residual: Whether the functions are residuals.\n\n        Yields:\n            A tuple of the form (Jacobian, Position).\n        \"\"\"\n        row = 0\n        # Iterate over outputs\n        for row_index, function in enumerate(functions):\n            column = 0\n            function_jacobian = self.disciplines[function].jac[function]\n            # Iterate over inputs\n            for column_index, variable in enumerate(variables):\n                jacobian = function_jacobian.get(variable, None)\n                variable_size = self.sizes[variable]\n\n                # If residual of the form Yi-Yi, then add -I to the Jacobian\n                if is_residual and function == variable:\n                    if jacobian is not None:\n                        # Make a copy to avoid in-place modifications\n                        jacobian_copy = jacobian.copy()\n\n                        if isinstance(jacobian_copy, ndarray):\n                            fill_diagonal(jacobian_copy, jacobian.diagonal() - 1)\n\n                        elif isinstance(jacobian_copy, csr_matrix):\n                            jacobian_copy.setdiag(jacobian.diagonal() - 1)\n", "expect": "7.3", "note": "-I on the residual diagonal of a self-coupled block only applied to csr_matrix ("},
+    {"name": "seeded-C07-10", "file": "core/derivatives/jacobian_assembly.py", "old": "                        elif isinstance(jacobian_copy, sparse_classes):", "new": "                        elif isinstance(jacobian_copy, csr_matrix):", "expect": "7.3"},
     {"name": "sparse-identity-on-the-discipline-jacobian", "file": ASM, "old": "                        # Make a copy to avoid in-place modifications\n                        jacobian_copy = jacobian.copy()\n\n                        if isinstance(jacobian_copy, ndarray):\n", "new": "                        jacobian_copy = jacobian\n\n                        if isinstance(jacobian_copy, ndarray):\n                            jacobian_copy = jacobian.copy()\n", "expect": "7.3"},
     {"name": "real-operator-transposed-product-is-forward", "file": JOP, "old": "        return self.__operator.rmatvec(x).real", "new": "        return self.__operator.matvec(x).real", "expect": "7.5"},
     {"name": "composition-transposed-in-the-same-order", "file": JOP, "old": "        return self._operand_2.rmatvec(self._operand_1.rmatvec(x))", "new": "        return self._operand_1.rmatvec(self._operand_2.rmatvec(x))", "expect": "7.5"},
